@@ -455,7 +455,7 @@ def c08(tier):
     jobs = []
     for n, src in enumerate(srcs):
         jobs.append((H('.', 'HarnessC08Run'), P('.'), None, {'params': {'src': src, 'mapenv': 1 if n % 4 == 3 else 0}, 'label': 'run ' + src, 'job_timeout': 300 if q else 900}))
-    for src in ['A + B', 'A + Twice(2)', 'S matches "^a"', 'A in [1, 2, 3]', 'count(Xs, {# > A})', 'Ptr.Next.V', 'M.a + 1', 'Foo + 1', 'A +', 'E + D', 'B']:
+    for src in ['A + B', 'A + Pure2(2)', 'S matches "^a"', 'A in [1, 2, 3]', 'count(Xs, {# > A})', 'Ptr.Next.V', 'M.a + 1', 'Foo + 1', 'A +', 'E + D', 'B']:
         for mapenv in (0, 1, 2):
             jobs.append((H('.', 'HarnessC08Compile'), P('.'), None, {'params': {'src': src, 'mapenv': mapenv}, 'label': 'compile %s [mapenv %d]' % (src, mapenv)}))
     meta = {
